@@ -49,7 +49,7 @@ func installTimestamper(tsa http.RoundTripper, mc *world.Memcached) error {
 	return nil
 }
 
-var c10Kinds = []string{"valid", "wrong-nonce", "wrong-imprint", "rejected", "waiting", "bad-signature", "key-mismatch", "trailing", "garbage", "http500", "http503", "stall", "reset", "noeku"}
+var c10Kinds = []string{"valid", "wrong-nonce", "wrong-imprint", "rejected", "waiting", "bad-signature", "forged-content", "key-mismatch", "trailing", "garbage", "http500", "http503", "stall", "reset", "noeku"}
 
 type c10Req struct {
 	ID        int
@@ -118,7 +118,7 @@ func c10Sign(r *core.Run) {
 					if cmd == "dial" {
 						return "refuse"
 					}
-					return core.Pick(t, "memcache-fault-kind", "error", "timeout", "garbage")
+					return core.Pick(t, "memcache-fault-kind", "error", "timeout", "garbage", "stale", "stale")
 				}
 				return ""
 			}
